@@ -31,7 +31,6 @@ func VerifC01WriteSequence() {
 		kminor         bool
 	}
 	var want []expect
-	cur := op.Key{Name: note.C, Accidental: op.Natural}
 	cl, ca, cm := 0, 0, false
 	vel := uint8(op.MezzoPiano.Velocity())
 	symbols := []string{"", "m7", "sus4"}
@@ -78,7 +77,7 @@ func VerifC01WriteSequence() {
 			l, a, m := []int{2, 3, 0, 5}[ki], []int{-1, 1, -1, 0}[ki], []bool{false, true, false, true}[ki]
 			k := op.Key{Name: crdx.Name(l), Accidental: crdx.Acc(a), Minor: m}
 			in.Key = &k
-			cur, cl, ca, cm = k, l, a, m
+			cl, ca, cm = l, a, m
 			want = append(want, expect{kind: vcKey, kl: l, ka: a, kminor: m})
 		} else if i == 0 {
 			want = append(want, expect{kind: vcKey})
@@ -91,8 +90,11 @@ func VerifC01WriteSequence() {
 			names := [8]note.DegreeName{note.UnknownDegree, note.PerfectDegree, note.MajorDegree, note.MajorDegree, note.PerfectDegree, note.PerfectDegree, note.MajorDegree, note.MajorDegree}
 			c := op.NewChord(note.Degree{Value: uint(dn), Name: names[dn]}, rec, nil)
 			in.Chord = &c
-			keys, aerr := NewKey(cur, verifDict.Map).Apply(c)
-			vf.Assert("reference-chord-playable", aerr == nil)
+			// the pitches the property demands, from the reference definitions only (nothing
+			// of the implementation is consulted): middle C + tonic of the key in force +
+			// major-scale size of the degree; m7 = 0-3-7-10 above it, bass = root an octave down
+			root := 60 + spec.RawPitch(cl, ca) + [8]int{0, 0, 2, 4, 5, 7, 9, 11}[dn]
+			keys := []MIDINoteNumber{MIDINoteNumber(root - 12), MIDINoteNumber(root), MIDINoteNumber(root + 3), MIDINoteNumber(root + 7), MIDINoteNumber(root + 10)}
 			want = append(want, expect{kind: vcNote, keys: keys, value: value, vel: vel})
 		} else {
 			want = append(want, expect{kind: vcRest, value: value})
@@ -115,11 +117,12 @@ func VerifC01WriteSequence() {
 			wi++
 			switch c.kind {
 			case vcNote:
-				same := len(c.keys) == len(e.keys)
-				for j := 0; same && j < len(c.keys); j++ {
-					same = vf.Ite(c.keys[j] == uint8(e.keys[j]), same, false)
+				// same multiset of pitches, in whatever order the chord is handed over
+				w8 := make([]uint8, len(e.keys))
+				for j, x := range e.keys {
+					w8[j] = uint8(x)
 				}
-				vf.Assert("chord-sounds-in-the-key-in-force", same)
+				verifSamePitches("chord-sounds-in-the-key-in-force", c.keys, w8)
 				vf.Assert("chord-length-as-written", c.value == e.value)
 				vf.Assert("chord-uses-the-dynamic-in-force", c.vel == e.vel)
 			case vcRest:
